@@ -11,7 +11,12 @@ From Coq Require Import ZifyN ZifyNat ZifyBool.
 From RecordUpdate Require Import RecordUpdate.
 
 Definition fnest (s : pfrom) : Prop := fb_nest s /\ tag_nest s.
-Definition NSct (c : contacts) : Prop := Forall fnest (ct_vals c) /\ fnest (ct_last c) /\ fnest (ct_first c).
+(* the expires summary bounds every finished value: stored, scratch or first *)
+Definition exin (c : contacts) (v : pfrom) : Prop :=
+  fb_parsed v = true -> ct_n c <> 0 /\ ct_minexp c <= fb_expires v /\ fb_expires v <= ct_maxexp c.
+Definition EXct (c : contacts) : Prop := Forall (exin c) (ct_vals c) /\ exin c (ct_last c) /\ exin c (ct_first c).
+Lemma exin_0 c : exin c pfrom0. Proof. unfold exin. cbn. discriminate. Qed.
+Definition NSct (c : contacts) : Prop := (Forall fnest (ct_vals c) /\ fnest (ct_last c) /\ fnest (ct_first c)) /\ EXct c.
 Definition NSpa (c : pais) : Prop := Forall fnest (pa_vals c) /\ fnest (pa_last c).
 Definition NSv (v : phvals) : Prop :=
   fnest (pv_from v) /\ fnest (pv_to v) /\ cs_nest (pv_cseq v) /\ NSct (pv_contacts v) /\ NSpa (pv_pais v).
@@ -25,8 +30,9 @@ Lemma NSv_init nc : NSv (phvals_init (repeat pfrom0 nc)).
 Proof.
   unfold NSv, phvals_init. cbn [pv_from pv_to pv_cseq pv_contacts pv_pais]. split; [apply fnest_0|]. split; [apply fnest_0|].
   split; [unfold cs_nest, pf_end; cbn; repeat split; lia|]. split.
-  - unfold NSct, contacts_init. cbn [ct_vals ct_last ct_first].
-    split; [apply Forall_forall; intros x Hx; apply repeat_spec in Hx; subst x; apply fnest_0|]. split; apply fnest_0.
+  - unfold NSct, EXct, contacts_init. cbn [ct_vals ct_last ct_first]. split.
+    + split; [apply Forall_forall; intros x Hx; apply repeat_spec in Hx; subst x; apply fnest_0|]. split; apply fnest_0.
+    + split; [apply Forall_forall; intros x Hx; apply repeat_spec in Hx; subst x; apply exin_0|]. split; apply exin_0.
   - unfold NSpa, pais0. cbn [pa_vals pa_last]. split; [apply Forall_forall; intros x Hx; apply repeat_spec in Hx; subst x; apply fnest_0|apply fnest_0].
 Qed.
 
@@ -55,20 +61,42 @@ Qed.
 
 
 (* ---- the multi-value lists --------------------------------------------------------------------------------------------------------------- *)
-Lemma ct_ns_next l v c6 (more : bool) : NSct l -> fnest v -> ct_count (ct_store l v) v = Some c6 ->
+Lemma ct_count_exp c1 v c6 : ct_count c1 v = Some c6 ->
+  ct_maxexp c6 = N.max (ct_maxexp c1) (fb_expires v) /\ ct_minexp c6 = N.min (if ct_n c1 =? 0 then MaxU32 else ct_minexp c1) (fb_expires v).
+Proof.
+  destruct c1 as [vals n hno mx mn lh last first]. unfold ct_count, ct_cap. cbn.
+  destruct (n =? 0); cbn.
+  all: match goal with |- context [match ?x with Some _ => _ | None => _ end] => destruct x end; [|discriminate].
+  all: cbn; destruct (mx <? fb_expires v) eqn:E1; cbn.
+  all: match goal with |- context [fb_expires ?vv <? ?m] => destruct (fb_expires vv <? m) eqn:E2 end; cbn.
+  all: destruct ((n + 1 =? 1) && (nnat (length vals) =? 0)); cbn; intros H; injection H as <-; cbn; split; lia.
+Qed.
+Lemma exin_mono c c' v : (ct_n c <> 0 -> ct_n c' <> 0) -> (ct_n c <> 0 -> ct_minexp c' <= ct_minexp c) -> ct_maxexp c <= ct_maxexp c' -> exin c v -> exin c' v.
+Proof. unfold exin. intros H1 H2 H3 H Hp. destruct (H Hp) as (A & B & C). specialize (H1 A). specialize (H2 A). split; [exact H1|lia]. Qed.
+Lemma ct_ns_next l v c6 (more : bool) : NSct l -> fnest v -> fb_parsed v = true -> ct_count (ct_store l v) v = Some c6 ->
   NSct (if more then ct_reset_last_if (ct_slot_is_last l) c6 else c6).
 Proof.
-  intros (A & B & C) Hv E6.
+  intros ((A & B & C) & (EA & EB & EC)) Hv Hpar E6.
   destruct (ct_store_proj l v) as (S1 & S2 & S3 & S4 & S5 & S6 & S7 & S8).
-  destruct (ct_count_proj _ _ _ E6) as (P1 & P2 & P3 & P4 & P5).
+  destruct (ct_count_proj _ _ _ E6) as (P1 & P2 & P3 & P4 & P5). destruct (ct_count_exp _ _ _ E6) as (M1 & M2). rewrite S1, S3, S4 in *.
   set (X := if more then ct_reset_last_if (ct_slot_is_last l) c6 else c6).
   assert (Xp : ct_vals X = ct_vals c6 /\ ct_first X = ct_first c6 /\
-               ct_last X = (if more && ct_slot_is_last l then pfrom0 else ct_last c6)).
+               ct_last X = (if more && ct_slot_is_last l then pfrom0 else ct_last c6) /\
+               ct_n X = ct_n c6 /\ ct_minexp X = ct_minexp c6 /\ ct_maxexp X = ct_maxexp c6).
   { subst X. unfold ct_reset_last_if. destruct more, (ct_slot_is_last l); destruct c6; cbn; repeat split; reflexivity. }
-  destruct Xp as (X1 & X3 & X5). unfold NSct. rewrite X1, X3, X5, P1, P4, P5, S6, S7, S8.
-  split; [destruct (ct_slot_is_last l); [exact A|apply Forall_set_nth; assumption]|].
-  split; [destruct (more && ct_slot_is_last l); [apply fnest_0|destruct (ct_slot_is_last l); assumption]|].
-  destruct (_ && _); assumption.
+  destruct Xp as (X1 & X3 & X5 & X6 & X7 & X8).
+  assert (Hold : forall w, exin l w -> exin X w).
+  { intros w. apply exin_mono; [intros _; rewrite X6, P2; lia| |rewrite X8, M1; lia].
+    intros Hn. rewrite X7, M2. replace (ct_n l =? 0) with false by lia. lia. }
+  assert (Hnew : exin X v).
+  { intros _. rewrite X6, P2, X7, M2, X8, M1. split; [lia|]. destruct (ct_n l =? 0); lia. }
+  split; unfold EXct; rewrite X1, X3, X5, P1, P4, P5, S6, S7, S8.
+  - split; [destruct (ct_slot_is_last l); [exact A|apply Forall_set_nth; assumption]|].
+    split; [destruct (more && ct_slot_is_last l); [apply fnest_0|destruct (ct_slot_is_last l); assumption]|].
+    destruct (_ && _); assumption.
+  - split; [destruct (ct_slot_is_last l); [eapply Forall_impl; [exact Hold|exact EA]|apply Forall_set_nth; [eapply Forall_impl; [exact Hold|exact EA]|exact Hnew]]|].
+    split; [destruct (more && ct_slot_is_last l); [apply exin_0|destruct (ct_slot_is_last l); [exact Hnew|apply Hold; exact EB]]|].
+    destruct (_ && _); [exact Hnew|apply Hold; exact EC].
 Qed.
 Lemma ct_iter_ns pre rest i c : i = nnat (length pre) -> LBct 0 c -> NSct c ->
   match ct_iter pre rest i c with
@@ -82,9 +110,11 @@ Proof.
   rewrite ct_post_eq in *. cbv zeta in *.
   destruct e; try (intros E; discriminate E).
   - pose proof (fb_fresh_nest HdrContact pre rest i next EOk v Hi Er (or_introl eq_refl)) as Hv.
-    destruct (ct_count (ct_store c v) v) as [c6|] eqn:E6; [|exact I]. intros _. exact (ct_ns_next c v c6 false Hns Hv E6).
+    destruct (ct_count (ct_store c v) v) as [c6|] eqn:E6; [|exact I]. intros _.
+    exact (ct_ns_next c v c6 false Hns Hv (fb_run_ok_parsed _ _ _ _ _ _ _ _ Er (or_introl eq_refl)) E6).
   - pose proof (fb_fresh_nest HdrContact pre rest i next EMoreValues v Hi Er (or_intror eq_refl)) as Hv.
-    destruct (ct_count (ct_store c v) v) as [c6|] eqn:E6; [|exact I]. exact (ct_ns_next c v c6 true Hns Hv E6).
+    destruct (ct_count (ct_store c v) v) as [c6|] eqn:E6; [|exact I].
+    exact (ct_ns_next c v c6 true Hns Hv (fb_run_ok_parsed _ _ _ _ _ _ _ _ Er (or_intror eq_refl)) E6).
 Qed.
 Lemma ct_run_ns pre rest o c n c' : o = nnat (length pre) -> UBct o c -> LBct 0 c -> NSct c ->
   run ct_iter pre rest o 0 c = Done n EOk c' -> NSct c'.
@@ -155,7 +185,7 @@ Lemma NS_other v v' : NSv v -> pv_from v' = pv_from v -> pv_to v' = pv_to v -> p
   pv_contacts v' = pv_contacts v -> pv_pais v' = pv_pais v -> NSv v'.
 Proof. unfold NSv. intros H -> -> -> -> ->. exact H. Qed.
 Lemma NSct_newhdr c : NSct c -> NSct (c <| ct_hno := ct_hno c + 1 |> <| ct_lasthval := pf0 |>).
-Proof. destruct c. unfold NSct. cbn. auto. Qed.
+Proof. destruct c. unfold NSct, EXct, exin. cbn. auto. Qed.
 Lemma NSpa_newhdr c : NSpa c -> NSpa (c <| pa_hno := pa_hno c + 1 |> <| pa_lasthval := pf0 |>).
 Proof. destruct c. unfold NSpa. cbn. auto. Qed.
 
